@@ -7,6 +7,7 @@ import (
 	"github.com/internetarchive/Zeno/internal/pkg/archiver/discard/discarder/cloudflare"
 	"github.com/internetarchive/Zeno/internal/pkg/archiver/discard/discarder/warcdiscardstatus"
 	"github.com/internetarchive/Zeno/internal/pkg/archiver/discard/reasoncode"
+	"github.com/internetarchive/Zeno/internal/pkg/verifhook"
 )
 
 // Builder is a struct that helps build multiple discard hooks into a single one.
@@ -32,6 +33,7 @@ func (b *Builder) AddDefaultHooks() *Builder {
 // Build creates the final discard hook by chaining all the added hooks.
 func (b *Builder) Build() warc.DiscardHook {
 	return func(resp *http.Response) (bool, string) {
+		verifhook.At("arch.discard", resp)
 		if len(b.hooks) == 0 {
 			return false, reasoncode.EmptyHookChain
 		}
